@@ -497,7 +497,7 @@ def fe_check(req, impl, model):
 def run(ck):
     rng = random.Random(ck.seed)
     harness = c48lib.build(ck, "c48h", os.path.join(vlib.VERIF, "harness", "C48", "harness.cxx"),
-                           c48lib.MTEST_SOURCES)
+                           c48lib.MTEST_SOURCES + ["ConstraintBase"])
     driver = ck.lean_exe("c48driver", "TfelVerif/C48/Driver.lean")
     res = c48lib.lean_checked(ck, PROPS)
     ck.lean_violations(res)
@@ -517,9 +517,14 @@ def run(ck):
     reqs += gen_lines(rng, 1500 if q else 40000, 300 if q else 5000, 4000 if q else 150000, 2000 if q else 60000)
     mts = [gen_mt(rng) for _ in range(300 if q else 6000)]
     mxs = [c48full.gen_mx(rng) for _ in range(400 if q else 8000)]
+    # directed probe (observation only, mtest/src/ConstraintBase.cxx is outside the anchors): a constraint
+    # desactivated by the event E0 at t=1 must stay inactive when the unrelated event E1 occurs at t=2
+    ptimes = [0.0, 1.0, 2.0, 3.0]
+    probe = "mx Tridimensional 0 1 %s %s %s %s 0 10 60 0 0 0 %d %s 1 g 0 1 1 0 1 E0 c %s 2 E0 1 %s E1 1 %s 0" % (
+        hx(0.0), hx(5.0), hx(1e-11), hx(1e-8), len(ptimes), " ".join(map(hx, ptimes)), hx(0.3), hx(1.0), hx(2.0))
     text = "".join(r["line"] + "\n" for r in reqs)
     pi = c48lib.run_harness(ck, harness, text + "".join(r["line"] + "\n" for r in mts) +
-                            "".join(r["line"] + "\n" for r in mxs))
+                            "".join(r["line"] + "\n" for r in mxs) + probe + "\n")
     pm = ck.run([driver], input=text, timeout=1500)
     if pi.returncode != 0:
         ck.violation("harness-crash", "the implementation harness aborted (sanitizer or crash)",
@@ -658,6 +663,9 @@ def run(ck):
             disagreements += 1
             report(site, True, "MTest problem (public interface, result file): " + why,
                    {"request": r["line"], "problem": c48full.decoded(r), "result_file_rows": c48full.parse_rows(a)})
+    k = len(reqs) + len(mts) + len(mxs)
+    prows = c48full.parse_rows(impl[k]) if k < len(impl) else []
+    unrelated_event_reactivates = (len(prows) == 4 and abs(prows[2][1]) < 1e-9 and abs(prows[3][1] - 0.3) < 1e-9)
     for cls, n in sorted(mx_all.items()):
         if n >= 10 and mx_end.get(cls, 0) == 0:
             report("mx:no-run-completes:" + cls, False, "none of the %d complete MTest problems of class '%s' completes any "
@@ -695,6 +703,7 @@ def run(ck):
         "public_interface_problems": len(mxs), "public_interface_problems_completed_by_class": mx_end,
         "public_interface_problems_with_events_completed": mx_events_end,
         "result_file_components_checked": mx_checked,
+        "observation_event_unrelated_to_a_desactivated_constraint_reactivates_it": unrelated_event_reactivates,
         "observation_lpi_tabulated_points_not_reproduced_bitwise_by_double_rounding": rounding_points,
         "observation_nan_increment_or_residual_accepted_by_checkConvergence": nan_accepted,
         "samples": samples,
